@@ -352,7 +352,8 @@ def rule_kind_filter(prog):
             out.missing("completion::" + fn)
             continue
         got = set()
-        for m in hir.nodes(b["body"], "Match"):
+        # (the filter may be a predicate function handed to a shared helper: `search_and_create_items(table, is_type, ..)`)
+        for m in (x_ for x_ in hir.nodes_deep(prog, b["body"], 1, crate=c, values=True) if x_.get("k") == "Match"):
             if "matches!" in (m.get("mx") or []):
                 for arm in m["arms"]:
                     if hir.lit_value(arm["body"]) is True:
@@ -815,6 +816,36 @@ def rule_update_order(prog):
         new_tokens_ok = toks_arg.endswith(".tokens") or (lex_bind is not None and toks_arg == lex_bind[0])
         text_ok = text_arg.endswith(".text") or (edited != "" and text_arg == edited)
         ok = ch_lex == ch_rep and bool(nw) and place(nw[0]["args"][1]) == tc_bind and new_tokens_ok and text_ok
+        if not ok and nw:
+            # the same facts behind destructuring and tuple fields (`let TextChange { range, text } = &change;`, `relexed.1`): every
+            # value is followed to where it comes from - a parameter / loop variable, or the lexer call
+            defs_ = {}
+            for l in hir.nodes(blk):
+                if l.get("k") in ("Let", "LetExpr") and l.get("init") is not None and l.get("pat"):
+                    for bd in hir.pat_bindings(l["pat"]):
+                        defs_.setdefault(bd["id"], l["init"])
+
+            def root_of(e_, d_=0):
+                e_ = hir.strip_ref(hir.strip(e_))
+                if d_ > 8:
+                    return None
+                if e_ is lex[0] or (e_.get("k") == "Call" and (hir.callee(e_) or "").endswith("lexer::update")):
+                    return "LEX"
+                if e_.get("k") == "MethodCall" and e_["m"] in ("clone", "to_owned", "to_range", "as_ref", "as_str", "borrow", "into"):
+                    return root_of(e_["recv"], d_ + 1)
+                if e_.get("k") == "Field":
+                    return root_of(e_["base"], d_ + 1)
+                pl_ = hir.path_local(e_)
+                if pl_:
+                    return root_of(defs_[pl_["id"]], d_ + 1) if pl_["id"] in defs_ else "local:%s" % pl_["id"]
+                return None
+            r_lex, r_rep = root_of(lex[0]["args"][2]), root_of(rep[0]["args"][0])
+            r_tc, r_tk = root_of(nw[0]["args"][1]), root_of(nw[0]["args"][0])
+            parts = [None if None in (r_lex, r_rep) else r_lex == r_rep,
+                     None if r_tc is None else r_tc == "LEX",
+                     True if (new_tokens_ok or r_tk == "LEX") else None if r_tk is None else False,
+                     True if text_ok else None]
+            ok = False if any(x_ is False for x_ in parts) else None if any(x_ is None for x_ in parts) else True
     reord = [n for n in hir.nodes_deep(prog, b["body"], 2, crate=c) if n.get("k") == "MethodCall" and n["m"] in (
         "rev", "reverse", "sort", "sort_by", "sort_by_key", "sort_unstable", "sort_unstable_by", "sort_unstable_by_key", "sort_by_cached_key",
         "dedup", "dedup_by", "dedup_by_key", "retain")
@@ -1047,7 +1078,12 @@ def rule_strip_rebuild(prog):
             if pb is not b:
                 for n, ps in hir.walk(b["body"]):
                     if n.get("k") in ("Call", "MethodCall") and hir.local_callee_body(prog, n) is pb:
-                        iterated = any(q.get("k") in ("Closure", "ForLoop", "While", "Loop") for q in ps)
+                        iterated = iterated or any(q.get("k") in ("Closure", "ForLoop", "While", "Loop") for q in ps)
+                    # handed to an iterator adaptor as a function value: `rest.fold(first, Self::with_change)`
+                    if n.get("k") == "MethodCall" and n["m"] in ("fold", "try_fold", "for_each", "map", "scan") and any(
+                            (hir.path_def(hir.strip(a_)) or {}).get("p") == pb["p"] or (hir.path_def(hir.strip(a_)) or {}).get("rp") == pb["p"]
+                            for a_ in n["args"]):
+                        iterated = True
 
         def classify(n):
             if is_call(n, strip_ps):
@@ -1080,6 +1116,30 @@ def rule_strip_rebuild(prog):
                                                                for x_ in hir.nodes(n["then"])) and \
                             any(is_call(x_, append_ps) for x_ in hir.nodes_deep(prog, n["else"], 2, crate=c)):
                         guard = True
+            if not guard:
+                def _is_changes(e_):
+                    return any("TextChange" in c.tstr(x_["t"]) + "".join(c.tstr(a_["to"]) for a_ in x_.get("adj") or [])
+                               for x_ in hir.nodes(e_) if x_.get("k") in ("Path", "MethodCall") and "t" in x_)
+                other_test = False
+                for n in hir.nodes(b["body"]):
+                    # `match changes.as_slice() { [] => self, [..] => <re-parse and re-analyse> }`
+                    if n.get("k") == "Match" and n.get("src") == "match" and _is_changes(n["scrut"]):
+                        other_test = True
+                        for a_ in n["arms"]:
+                            pt_ = hir.pat_strip(a_["pat"])
+                            empty_ = pt_.get("k") == "Slice" and not (pt_.get("before") or pt_.get("after") or pt_.get("mid") or pt_.get("slice"))
+                            if empty_ and not any(x_.get("k") in ("Call", "MethodCall") for x_ in hir.nodes(a_["body"])) and any(
+                                    is_call(x_, append_ps) for o_ in n["arms"] if o_ is not a_ for x_ in hir.nodes_deep(prog, o_["body"], 2, crate=c)):
+                                guard = True
+                    # `let Some(first) = changes.next() else { return self };`
+                    if n.get("k") == "Let" and n.get("els") is not None and n.get("init") is not None and _is_changes(n["init"]):
+                        other_test = True
+                        i_ = hir.strip(n["init"])
+                        if i_.get("k") == "MethodCall" and i_["m"] in ("next", "first", "split_first", "pop", "last") and \
+                                any(True for _ in hir.nodes(n["els"], "Ret")) and not any(is_call(x_, append_ps) for x_ in hir.nodes(n["els"])):
+                            guard = True
+                if not guard and other_test:
+                    guard = None    # the batch is tested in a way this clause does not read
             out.add("AnalyzedSource::update", "an empty change list does not reach the re-analysis", guard, c.loc(b["sp"]),
                     "the per-change step (the only place that strips old build/semantic diagnostics) runs zero times for an empty "
                     "change list, but table::build/analyze still run and append every diagnostic again: didChange with "
